@@ -85,6 +85,8 @@ def run(ch: Checker) -> None:
     ch.rule('C13.2', 'the request path enters the candidate only through split("?",1)[0] / partition("?")[0] (the query never selects the file)', 1)
     ch.rule('C13.3', 'the static fallback is called only from on_request_complete under `self.route is None` and `flags.enable_static_server`; '
                      'serve_static_file is called with a request-derived path only from the static handler', 2)
+    ch.rule('C13.5', 'the header map of a static-file response is created for that response (never a module-level / class-level map, not even as a default): '
+                     'the response builders write Content-Encoding / Content-Length into the map they are given', 1)
     ch.rule('C13.4', 'serve_static_file: open/read inside a try whose OSError handler returns NOT_FOUND_RESPONSE_PKT', 1)
 
     web = prog.class_named('HttpWebServerPlugin')
@@ -195,6 +197,10 @@ def run(ch: Checker) -> None:
                                  'a failing open()/read() is not answered with NOT_FOUND_RESPONSE_PKT')
     if opens == 0:
         ch.undecided('C13.1c', sf, 'def', 'no open() call found in serve_static_file')
+
+    # C13.5 fresh header map
+    from .common import fresh_headers_check
+    fresh_headers_check(ch, 'C13.5', [sf])
 
     # C13.3 who may call
     callers_static: List[Tuple[FuncInfo, ast.Call]] = []
